@@ -318,7 +318,15 @@ func (gq *Schema) AddExtensions(e ...Extension) {
 // map-reduce
 func typeMapReducer(schema *Schema, typeMap TypeMap, objectType Type) (TypeMap, error) {
 	var err error
-	if objectType == nil || objectType.Name() == "" {
+	if objectType == nil {
+		return typeMap, nil
+	}
+	if objectType.Error() != nil {
+		// an error parked on a referenced type (a constructor that refused its
+		// configuration leaves the type without a name) must not be skipped
+		return typeMap, objectType.Error()
+	}
+	if objectType.Name() == "" {
 		return typeMap, nil
 	}
 
